@@ -192,6 +192,10 @@ let handle_smtp (kind : string) (ins : string list) (outs : string list) : bool 
                then List.concat (List.map (fun (_, r) -> match r with Some r -> [(r.r_addr, Allow)] | None -> []) rcpt_tab)
                else rh in
              let mail_tab = parse_mail_table pip mt in
+             (* smtpallow: ... and every sender *)
+             let mh = if kind = "smtpallow"
+               then List.concat (List.map (fun (_, f) -> match f.mf_origin with Some og -> [(og.o_addr, Allow)] | None -> []) mail_tab)
+               else mh in
              (* luareload: Lua host, second listener, a third one that allows everything - then the script is loaded again:
                 EventBroker.AddListener removes the old "lua" entry and appends the new one at the END. The chain is built with
                 the extracted Hooks.chain_add (Proofs/HooksChain.v), every address of the dialogue is asked. *)
